@@ -335,3 +335,159 @@ Definition c03h_show (c : zhcase) : list zhout := c03h_run false c.
 Definition c03h_check (c : zhcase) : bool :=
   let '(_, _, seen) := c in
   list_eqb (hout_eqb Z Z.eqb N N.eqb) (c03h_run false c) seen.
+
+(* ====================================================================== *)
+(* Round 3: the CALLER's objects.  A session also owns a pool of argument  *)
+(* objects (Python lists: column names / positions, masks, index lists);   *)
+(* a call may be handed one of them - the SAME object again and again -    *)
+(* and frames can be appended to in place (DataFrame.append), which shows  *)
+(* whether two frames share one row container.                             *)
+(* ====================================================================== *)
+Section Args.
+Variable V : Type.
+Variable veqb : V -> V -> bool.
+Variable dflt : V.
+Variable Nm : Type.
+Variable nmeqb : Nm -> Nm -> bool.
+Variable bind_early : bool.
+
+(* collect(): "else: columns = list(columns)" - a list argument is copied before the in-place
+   name -> position rewrite.  [true] = the code as it stands; [false] = the rewrite runs on the
+   caller's own list (stated so that it can be refuted: Props C03_collect_rewrites_callers_list_refuted) *)
+Variable copy_cols : bool.
+
+Local Notation row := (list V).
+
+Inductive aitem := AName (n : Nm) | AInt (z : Z) | ABool (b : bool).
+Definition argobj := list aitem.
+
+Record astate := mkAS { a_h : hstate V Nm; a_pool : list argobj }.
+
+(* how each method reads the items of a list it is handed *)
+Definition as_colref (x : aitem) : colref Nm :=
+  match x with AName n => CName n | AInt z => CIdx z | ABool b => CIdx (if b then 1 else 0)%Z end.   (* isinstance(True, int) *)
+Definition as_name (x : aitem) : option Nm := match x with AName n => Some n | _ => None end.
+Definition truthy (x : aitem) : bool :=
+  match x with AName _ => true | AInt z => negb (z =? 0)%Z | ABool b => b end.
+Definition as_indexes (v : argobj) : list Z :=
+  flat_map (fun x => match x with AInt z => [z] | ABool b => [(if b then 1 else 0)%Z] | AName _ => [] end) v.
+
+(* collect(): column_indicies = columns; for i, c in enumerate(columns): if not isinstance(c, int):
+   column_indicies[i] = self.column_names.index(c)   - the list as it is left (by a ValueError too) *)
+Fixpoint rewrite_cols (src_names : list Nm) (v : argobj) : argobj * bool :=
+  match v with
+  | [] => ([], true)
+  | AName n :: r =>
+      match index_of Nm nmeqb n src_names with
+      | None => (v, false)
+      | Some p => let '(r', ok) := rewrite_cols src_names r in (AInt (Z.of_nat p) :: r', ok)
+      end
+  | x :: r => let '(r', ok) := rewrite_cols src_names r in (x :: r', ok)
+  end.
+
+Inductive aop :=
+| APlain (o : hop V Nm)                       (* the argument is built for this call (as in rounds 1-2) *)
+| ACollect (a : nat) (limit : option Z)       (* df.collect(pool[a], limit) *)
+| AGetItem (a : nat)                          (* df[pool[a]] *)
+| ASelect (a : nat)                           (* df.select(pool[a]) *)
+| AFilter (a : nat)                           (* df.filter(pool[a]) *)
+| ATake (a : nat)                             (* df.take(pool[a]) *)
+| AAppend (r : row)                           (* df.append(r): self._rows.append(...) in place *)
+| APeek (a : nat).                            (* look at pool[a] *)
+
+Record astepd := mkAStep { a_src : nat; a_op : aop }.
+
+Inductive aout := AOut (o : hout V Nm) | AArg (v : argobj).
+
+Definition pool_at (st : astate) (a : nat) : nat := Nat.modulo a (length (a_pool st)).
+Definition pool_get (st : astate) (a : nat) : argobj := nth (pool_at st a) (a_pool st) [].
+
+Definition via_hstep (st : astate) (src : nat) (o : hop V Nm) : astate * aout :=
+  let '(h1, x) := hstep V veqb dflt Nm nmeqb bind_early (a_h st) (mkHStep src o) in
+  (mkAS h1 (a_pool st), AOut x).
+
+(* the pool after collect() was handed object a by frame fr *)
+Definition pool_after_collect (st : astate) (src a : nat) : list argobj :=
+  if copy_cols then a_pool st
+  else match nth_error (henv (a_h st)) (Nat.modulo src (length (henv (a_h st)))) with
+       | Some fr => upd (pool_at st a) (fst (rewrite_cols (names (hsch fr)) (pool_get st a))) (a_pool st)
+       | None => a_pool st
+       end.
+
+Definition astep (st : astate) (s : astepd) : astate * aout :=
+  let env := henv (a_h st) in
+  let i := Nat.modulo (a_src s) (length env) in
+  match a_op s with
+  | APlain o => via_hstep st (a_src s) o
+  | APeek a => (st, AArg (pool_get st a))
+  | ACollect a lim =>
+      let '(st1, x) := via_hstep st (a_src s) (HOp (Collect (map as_colref (pool_get st a)) lim)) in
+      (mkAS (a_h st1) (pool_after_collect st (a_src s) a), x)
+  | AGetItem a =>
+      let '(st1, x) := via_hstep st (a_src s) (HOp (GetItem (map as_colref (pool_get st a)))) in
+      (mkAS (a_h st1) (pool_after_collect st (a_src s) a), x)
+  | ASelect a =>
+      (* source_names.index(attribute): an item that is not a string is not a column name *)
+      match all_some (map as_name (pool_get st a)) with
+      | Some attrs => via_hstep st (a_src s) (HOp (Select attrs))
+      | None => (st, AOut (HVal (ORaise (match nth_error env i with Some _ => ValueError | None => TypeError end))))
+      end
+  | AFilter a => via_hstep st (a_src s) (HOp (Filter (map truthy (pool_get st a))))
+  | ATake a => via_hstep st (a_src s) (HOp (Take (as_indexes (pool_get st a))))
+  | AAppend r =>
+      match nth_error env i with
+      | None => (st, AOut (HVal (ORaise TypeError)))
+      | Some fr =>
+          match kind (hsch fr), hrows fr with
+          | Typed _, _ => (st, AOut (HVal (ORaise TypeError)))      (* RelationSchema.validate: a tuple is not a dictionary *)
+          | Untyped, RG _ => (st, AOut (HVal (ORaise TypeError)))   (* a generator has no append (AttributeError) *)
+          | Untyped, RL l =>
+              (mkAS (mkHS (set_rows V Nm i (RL (l ++ [r])) env) (hheap (a_h st))) (a_pool st), AOut (HNew []))
+          end
+      end
+  end.
+
+Fixpoint arun (st : astate) (prog : list astepd) : astate * list aout :=
+  match prog with
+  | [] => (st, [])
+  | s :: r => let '(st1, o) := astep st s in
+              let '(st2, os) := arun st1 r in (st2, o :: os)
+  end.
+
+Definition aitem_eqb (a b : aitem) : bool :=
+  match a, b with
+  | AName x, AName y => nmeqb x y
+  | AInt x, AInt y => Z.eqb x y
+  | ABool x, ABool y => Bool.eqb x y
+  | _, _ => false
+  end.
+
+Definition aout_eqb (a b : aout) : bool :=
+  match a, b with
+  | AOut x, AOut y => hout_eqb V veqb Nm nmeqb x y
+  | AArg x, AArg y => list_eqb aitem_eqb x y
+  | _, _ => false
+  end.
+
+End Args.
+
+Arguments AName {Nm}. Arguments AInt {Nm}. Arguments ABool {Nm}.
+Arguments mkAS {V Nm}. Arguments a_h {V Nm}. Arguments a_pool {V Nm}.
+Arguments APlain {V Nm}. Arguments ACollect {V Nm}. Arguments AGetItem {V Nm}. Arguments ASelect {V Nm}.
+Arguments AFilter {V Nm}. Arguments ATake {V Nm}. Arguments AAppend {V Nm}. Arguments APeek {V Nm}.
+Arguments mkAStep {V Nm}. Arguments a_src {V Nm}. Arguments a_op {V Nm}.
+Arguments AOut {V Nm}. Arguments AArg {V Nm}.
+
+Definition zastep := astepd Z N.
+Definition zaout := aout Z N.
+Definition zacase := (list (hinit Z N) * list (argobj N) * list zastep * list zaout)%type.
+
+Definition c03a_run (copy : bool) (c : zacase) : list zaout :=
+  let '(fs, pool, prog, _) := c in
+  snd (arun Z Z.eqb 0%Z N N.eqb false copy (mkAS (hstart Z N fs (mkHS [] [])) pool) prog).
+
+Definition c03a_show (c : zacase) : list zaout := c03a_run true c.
+
+Definition c03a_check (c : zacase) : bool :=
+  let '(_, _, _, seen) := c in
+  list_eqb (aout_eqb Z Z.eqb N N.eqb) (c03a_run true c) seen.
